@@ -19,6 +19,11 @@ Theorem C13_generated_text_formats :
   gen_json_datetime_form = FormIsoText /\ gen_sqlite_datetime_form = FormIsoText
   /\ gen_sqlite_column_reads_as = "datetime"%string.
 Proof. repeat split. Qed.
+(* the column of a datetime field reads back as a datetime whether the table was created with it or the column was
+   added to an existing table later *)
+Theorem C13_generated_sqlite_columns :
+  gen_sqlite_create_reads_as = "datetime"%string /\ gen_sqlite_alter_reads_as = "datetime"%string.
+Proof. split; reflexivity. Qed.
 Theorem C13_generated_avro :
   gen_avro_base_type = "long"%string /\ gen_avro_logical_type = "timestamp-micros"%string
   /\ gen_avro_epoch_micros = 0 /\ gen_avro_epoch_offset = 0 /\ gen_avro_guard_unit = "microseconds"%string.
@@ -119,6 +124,30 @@ Theorem C13_stream_json_sqlite_refuted :
   /\ obind (text_encode FormIsoText d) (text_wire_decode true) = Some d'
   /\ to_micros d' <> to_micros d.
 Proof. exact (formats_quirk_refuted gen_pack_rule eq_refl). Qed.
+
+(* SQLite with descriptor evolution: the same for a column created with the table and for a column added later *)
+Theorem C13_sqlite_created_and_added_column_partial : forall d, valid d -> aware d ->
+  off_exact gen_fromiso_drops_subsecond_offset (off d) = true ->
+  obind (text_encode gen_sqlite_datetime_form d) (sqlite_decode gen_sqlite_create_reads_as gen_fromiso_drops_subsecond_offset) = Some d
+  /\ obind (text_encode gen_sqlite_datetime_form d) (sqlite_decode gen_sqlite_alter_reads_as gen_fromiso_drops_subsecond_offset) = Some d.
+Proof.
+  intros d Hv Ha Hx. split; exact (sqlite_roundtrip _ _ _ d eq_refl eq_refl Hv Ha Hx).
+Qed.
+Theorem C13_sqlite_text_column_refuted : forall q d, obind (text_encode FormIsoText d) (sqlite_decode "string" q) = None.
+Proof. exact sqlite_text_column_refuted. Qed.
+
+(* ---- every way a timestamp enters a record (constructor keyword/positional, attribute assignment, _replace,
+   assignment through a grouped record and a nested group, grouped _replace, init_from_dict, init_from_record,
+   extend_record, datetime[] elements by constructor and by assignment) runs the field type's constructor: the
+   stored value is the constructor's value, hence aware *)
+Theorem C13_every_route_coerces : forall r q i,
+  enter_via (gen_route_functions r) q gen_new_keeps_fold i
+    = match dt_new q gen_new_keeps_fold i with Some d => StoredValue d | None => Rejected end
+  /\ (forall d, enter_via (gen_route_functions r) q gen_new_keeps_fold i = StoredValue d -> aware d).
+Proof. intros r q i. apply every_route_coerces. vm_compute. reflexivity. Qed.
+Theorem C13_route_without_constructor_refuted : forall q keep x o0,
+  enter_via [] q keep (InObj x o0) = StoredRaw (InObj x o0).
+Proof. exact route_without_constructor_refuted. Qed.
 
 (* ---- instants: days-from-civil and civil-from-days are inverse for ALL proleptic Gregorian dates (any year) *)
 Theorem C13_civil_days_inverse :
